@@ -196,7 +196,16 @@ def install(boundscheck: bool = True):
     import builtins
     import io
 
+    # development aid only (mutant / scratch-worktree runs); registered commands never
+    # set it, so checks always run against /repo's working tree
+    alt = os.environ.get("GBSIM_REPO")
+    if alt:
+        sys.path.insert(0, alt)
     import groupby_lib  # noqa: F401
+
+    if alt and not os.path.abspath(groupby_lib.__file__).startswith(os.path.abspath(alt)):
+        raise RuntimeError(f"GBSIM_REPO={alt} set but groupby_lib came from {groupby_lib.__file__}")
+    STATE["repo"] = os.path.dirname(os.path.dirname(os.path.abspath(groupby_lib.__file__)))
     import groupby_lib.util as util
     from groupby_lib.groupby import core
 
